@@ -103,7 +103,7 @@ def e2e_rows(job):
               for opt in ((False, True) if pos == len(cands) else (False,)):
                   c2 = dict(case, optimize=opt)
                   try:
-                      with time_limit(10):
+                      with time_limit(300):       # wall-clock guard only; a loaded machine must not turn into a verdict
                           st, r = common.compile_source(src, {"optimize": opt})
                           if st != "ok":
                               out.append(judge("e2e", code, "reject:" + r[:50], c2))
@@ -122,7 +122,7 @@ def e2e_rows(job):
                           else:
                               out.append(("e2e-bad-value", f"VM returned {v!r}, not one of the overloads' constants", c2))
                   except CaseTimeout:
-                      out.append(("e2e-timeout", "case did not finish in 10 s", c2))
+                      out.append(("e2e-timeout", "case did not finish in 300 s", c2))
     return out
 
 
